@@ -24,6 +24,8 @@ use futures::StreamExt;
 use h_util::{arg, json_str, Rng};
 
 const BIG: u64 = 1 << 40;
+/// a threaded run normally ends within milliseconds; a reader still waiting after this long is reported as hanging
+const WATCHDOG_S: u64 = 45;
 
 struct CountWaker(AtomicUsize);
 impl Wake for CountWaker {
@@ -420,7 +422,7 @@ fn sched_case(rng: &mut Rng, h: usize, rt: &tokio::runtime::Runtime, header: u64
 }
 
 /// real threads: nw writer threads push concurrently, a tokio task reads; watchdog timeout
-fn stress_case(rng: &mut Rng, h: usize, rt: &tokio::runtime::Runtime) {
+fn stress_case(rng: &mut Rng, h: usize, rt: &tokio::runtime::Runtime) -> bool {
     let nw = 1 + rng.below(3) as usize;
     let thr = *rng.pick(&[0u64, 300, 1200, BIG]);
     let per = 1 + rng.below(12) as usize;
@@ -461,7 +463,7 @@ fn stress_case(rng: &mut Rng, h: usize, rt: &tokio::runtime::Runtime) {
         }));
     }
     let got = rt.block_on(async {
-        tokio::time::timeout(std::time::Duration::from_secs(90), async {
+        tokio::time::timeout(std::time::Duration::from_secs(WATCHDOG_S), async {
             let mut v: Vec<Result<i64, String>> = vec![];
             while let Some(b) = reader.next().await {
                 v.push(b.map_err(|e| e.to_string()).and_then(|b| batch_id(&b).map(|x| x.0)));
@@ -484,7 +486,7 @@ fn stress_case(rng: &mut Rng, h: usize, rt: &tokio::runtime::Runtime) {
     match got {
         Err(_) => {
             hang = true;
-            why = "reader did not reach end-of-stream within 90 s after all writers finished and were dropped".into();
+            why = "reader did not reach end-of-stream within the watchdog time after all writers finished and were dropped".into();
         }
         Ok(v) => {
             let mut seen: Vec<i64> = vec![];
@@ -514,6 +516,7 @@ fn stress_case(rng: &mut Rng, h: usize, rt: &tokio::runtime::Runtime) {
     let ok = why.is_empty();
     println!("{{\"k\":\"stress\",\"h\":{h},\"nw\":{nw},\"thr\":{thr},\"per\":{per},\"fail_every\":{fail_every},\"pushed\":{},\"failed\":{nfail},\"read\":{nread},\"hang\":{hang},\"ok\":{ok},\"why\":{}}}",
         pushed.len(), json_str(&why));
+    hang
 }
 
 fn main() {
@@ -555,8 +558,13 @@ fn main() {
     let rt2 = tokio::runtime::Builder::new_multi_thread().worker_threads(2).enable_all().build().unwrap();
     for s in 0..nstress {
         let r = catch_unwind(AssertUnwindSafe(|| stress_case(&mut rng, s, &rt2)));
-        if r.is_err() {
-            println!("{{\"k\":\"stress\",\"h\":{s},\"panic\":true,\"ok\":false,\"why\":\"panic\"}}");
+        match r {
+            Err(_) => println!("{{\"k\":\"stress\",\"h\":{s},\"panic\":true,\"ok\":false,\"why\":\"panic\"}}"),
+            // one hang is a complete finding; the hung reader task still occupies the runtime, do not pile up more
+            Ok(true) => break,
+            Ok(false) => {}
         }
     }
+    // a hung reader task must not keep the process alive
+    rt2.shutdown_background();
 }
